@@ -128,6 +128,7 @@ def summarise(g, with_series=False):
         "field_type": ghe.fieldType,
         "m_flow_borehole": ghe.bhe.m_flow_borehole,
         "fluid_rho": float(ghe.bhe.fluid.rho),
+        "selected_coords": ([[float(x), float(y)] for x, y in s.selected_coordinates] if getattr(s, "selected_coordinates", None) is not None else None),
         "simulated_months": int(ghe.sim_params.end_month - ghe.sim_params.start_month + 1),
         "hybrid_axis_end_h": float(ghe.hybrid_load.hour[-1]),
         "rb": ghe.bhe.calc_effective_borehole_resistance(),
@@ -162,13 +163,25 @@ def run(cfg, outdir=None, with_series=False):
             # the same manager object used for an earlier study (other values), then configured again for this one
             first = json.loads(json.dumps(c))
             for sec, kv in c["_first_configured_with"].items():
-                first[sec].update(kv)
+                if sec == "loads" and "synthetic" in kv:
+                    first["loads"] = {"ground_loads": synthetic_loads(kv["synthetic"])}
+                else:
+                    first[sec].update(kv)
             g = make_manager(first)
             try:
                 g.find_design()
+                import tempfile as _tf
+                g.prepare_results("first study", "note", "verif", "it")
+                g.write_output_files(Path(_tf.mkdtemp(prefix="verif_first_")))
             except ValueError:
                 pass
             configure(g, c)
+        elif c.get("_design_first_set_with"):
+            # set_design was called before with another flow specification; only set_design is called again (no other setter)
+            first = json.loads(json.dumps(c))
+            first["design"].update(c["_design_first_set_with"])
+            g = make_manager(first)
+            g.set_design(flow_rate=c["design"]["flow_rate"], flow_type_str=c["design"]["flow_type"])
         else:
             g = make_manager(c)
         g.find_design()
